@@ -1,7 +1,7 @@
 (* Proofs about the seeding model (C11). *)
 From Coq Require Import ZArith List Bool Lia Arith Sorted.
 Import ListNotations.
-From MP Require Import Base Grid Seed.
+From MP Require Import Base Grid Seed Gen_seed_id.
 Local Open Scope Z_scope.
 
 (* ------------------------------------------------------------------ can_skip is a strict order *)
@@ -1503,8 +1503,8 @@ Qed.
 
 (* without handle_all the list handed over with subtile t consists exactly of the tiles of the grid that belong to the
    meta tile of t and pass the filter (not cached / stale) *)
-Lemma handed_tiles_spec g msx msy keep tx ty l c :
-  In c (handed_tiles g msx msy false keep (tx, ty, l)) <->
+Lemma handed_tiles_spec g msx msy womt keep tx ty l c :
+  In c (handed_tiles g msx msy womt false keep (tx, ty, l)) <->
   exists x y,
     c = (x, y, l) /\ keep c = true /\
     (let '(sx, sy) := meta_size g msx msy l in
@@ -1531,23 +1531,23 @@ Fixpoint oprocs (l : list oevent) : list coord :=
   end.
 
 (* the single tiles in the observable trace are the handed-over members of the meta tiles of the walk *)
-Lemma oprocs_observe g msx msy hall keep evs :
-  oprocs (observe g msx msy hall keep evs) = handed_all g msx msy hall keep evs.
+Lemma oprocs_observe g msx msy womt hall keep evs :
+  oprocs (observe g msx msy womt hall keep evs) = handed_all g msx msy womt hall keep evs.
 Proof.
   unfold handed_all. induction evs as [|[t|lv id|] r IH]; cbn [observe procs flat_map oprocs]; try assumption; [reflexivity|].
-  destruct (handed_tiles g msx msy hall keep t) as [|a ts] eqn:E; cbn [oprocs app]; rewrite IH; reflexivity.
+  destruct (handed_tiles g msx msy womt hall keep t) as [|a ts] eqn:E; cbn [oprocs app]; rewrite IH; reflexivity.
 Qed.
 
-Lemma handed_all_incl g msx msy hall keep a b :
-  incl (procs a) (procs b) -> incl (handed_all g msx msy hall keep a) (handed_all g msx msy hall keep b).
+Lemma handed_all_incl g msx msy womt hall keep a b :
+  incl (procs a) (procs b) -> incl (handed_all g msx msy womt hall keep a) (handed_all g msx msy womt hall keep b).
 Proof.
   unfold handed_all. intros H x Hx. apply in_flat_map in Hx. destruct Hx as (t & Ht & Hx).
   apply in_flat_map. exists t. auto.
 Qed.
 
-Lemma handed_all_app_procs g msx msy hall keep a b c :
+Lemma handed_all_app_procs g msx msy womt hall keep a b c :
   incl (procs a) (procs b ++ procs c) ->
-  incl (handed_all g msx msy hall keep a) (handed_all g msx msy hall keep b ++ handed_all g msx msy hall keep c).
+  incl (handed_all g msx msy womt hall keep a) (handed_all g msx msy womt hall keep b ++ handed_all g msx msy womt hall keep c).
 Proof.
   unfold handed_all. intros H x Hx. apply in_flat_map in Hx. destruct Hx as (t & Ht & Hx).
   apply H in Ht. apply in_app_or in Ht. apply in_or_app.
@@ -1555,18 +1555,129 @@ Proof.
 Qed.
 
 (* resume_covers on the single tiles that are handed over (cache content fixed during the history) *)
-Lemma resume_covers_handed_lemma g msx msy cov skipk levels root k j lv id hall keep :
+Lemma resume_covers_handed_lemma g msx msy cov skipk levels root k j lv id womt hall keep :
   geo_wf g msx msy -> levels_wf g levels -> levels <> [] ->
   nth_error (geo_walk g msx msy cov skipk levels root None) j = Some (ERep lv id) -> (j < k)%nat ->
-  incl (handed_all g msx msy hall keep (geo_walk g msx msy cov skipk levels root None))
-       (handed_all g msx msy hall keep (firstn k (geo_walk g msx msy cov skipk levels root None)) ++
-        handed_all g msx msy hall keep (geo_walk g msx msy cov skipk levels root id)).
+  incl (handed_all g msx msy womt hall keep (geo_walk g msx msy cov skipk levels root None))
+       (handed_all g msx msy womt hall keep (firstn k (geo_walk g msx msy cov skipk levels root None)) ++
+        handed_all g msx msy womt hall keep (geo_walk g msx msy cov skipk levels root id)).
 Proof.
   intros Hwf Hl Hne Hn Hjk. apply handed_all_app_procs. eapply resume_covers_geo_lemma; eauto.
 Qed.
 
 Example ex_handed :
-  handed_tiles ex_grid 2 2 false (fun _ => true) (0, 0, 2) = [(0, 1, 2); (1, 1, 2); (0, 0, 2); (1, 0, 2)] /\
-  handed_tiles ex_grid 2 2 false (fun t => negb (coord_eqb t (0, 0, 2))) (0, 0, 2) = [(0, 1, 2); (1, 1, 2); (1, 0, 2)] /\
-  handed_tiles ex_grid 2 2 true (fun _ => false) (0, 0, 2) = [(0, 0, 2)].
+  handed_tiles ex_grid 2 2 true false (fun _ => true) (0, 0, 2) = [(0, 1, 2); (1, 1, 2); (0, 0, 2); (1, 0, 2)] /\
+  handed_tiles ex_grid 2 2 true false (fun t => negb (coord_eqb t (0, 0, 2))) (0, 0, 2) = [(0, 1, 2); (1, 1, 2); (1, 0, 2)] /\
+  handed_tiles ex_grid 2 2 true true (fun _ => false) (0, 0, 2) = [(0, 0, 2)] /\
+  handed_tiles ex_grid 2 2 false true (fun _ => false) (0, 0, 2) = [(0, 1, 2); (1, 1, 2); (0, 0, 2); (1, 0, 2)].
 Proof. vm_compute. auto. Qed.
+
+(* ------------------------------------------------------------------ work_on_metatiles = False *)
+
+Lemma filter_all_true {A} (l : list A) : filter (fun _ => true) l = l.
+Proof. induction l as [|a l IH]; cbn; [reflexivity|]. rewrite IH. reflexivity. Qed.
+
+(* caches with upscale_tiles / downscale_tiles and refresh_all: every tile of the grid in the meta tile is handed over *)
+Lemma handed_tiles_rescale_all_spec g msx msy keep tx ty l c :
+  In c (handed_tiles g msx msy false true keep (tx, ty, l)) <->
+  exists x y,
+    c = (x, y, l) /\
+    (let '(sx, sy) := meta_size g msx msy l in
+     tx / sx * sx <= x <= tx / sx * sx + sx - 1 /\ ty / sy * sy <= y <= ty / sy * sy + sy - 1) /\
+    (let '(nx, ny) := grid_size g l in 0 <= x < nx /\ 0 <= y < ny).
+Proof.
+  replace (handed_tiles g msx msy false true keep (tx, ty, l))
+    with (handed_tiles g msx msy false false (fun _ => true) (tx, ty, l))
+    by (unfold handed_tiles; apply filter_all_true).
+  rewrite handed_tiles_spec. split.
+  - intros (x & y & H1 & _ & H2 & H3). exists x, y. auto.
+  - intros (x & y & H1 & H2 & H3). exists x, y. auto.
+Qed.
+
+(* ------------------------------------------------------------------ task ids and the progress store *)
+
+Definition idpart_eqb (a b : idpart) : bool :=
+  match a, b with
+  | PConst s, PConst t => list_eqb Z.eqb s t
+  | PText s, PText t => list_eqb Z.eqb s t
+  | PLevels s, PLevels t => list_eqb Z.eqb s t
+  | _, _ => false
+  end.
+Definition id_eqb (a b : list idpart) : bool := list_eqb idpart_eqb a b.
+
+Lemma list_eqb_eq {A} (e : A -> A -> bool) :
+  (forall x y, e x y = true -> x = y) -> forall a b, list_eqb e a b = true -> a = b.
+Proof.
+  intros He. induction a as [|x a IH]; intros [|y b] H; cbn [list_eqb] in H; try discriminate; [reflexivity|].
+  apply andb_true_iff in H. destruct H as [H1 H2]. f_equal; auto.
+Qed.
+
+Lemma zlist_eqb_eq a b : list_eqb Z.eqb a b = true -> a = b.
+Proof. apply list_eqb_eq. intros x y H. apply Z.eqb_eq. exact H. Qed.
+
+Lemma id_eqb_eq a b : id_eqb a b = true -> a = b.
+Proof.
+  apply list_eqb_eq. intros [s|s|s] [t|t|t] H; cbn [idpart_eqb] in H; try discriminate;
+    apply zlist_eqb_eq in H; subst; reflexivity.
+Qed.
+
+(* the id of a seed task determines its name, cache, grid and level list: different tasks of a seed run
+   (in particular the one-task-per-level split of caches with upscale_tiles / downscale_tiles) have different ids.
+   seed_task_id is generated from SeedTask.id by translator/specs/seed_id.py. *)
+Lemma seed_task_id_injective n c g l n' c' g' l' :
+  seed_task_id n c g l = seed_task_id n' c' g' l' -> n = n' /\ c = c' /\ g = g' /\ l = l'.
+Proof. unfold seed_task_id. intros H. injection H as -> -> -> ->. auto. Qed.
+
+Lemma per_level_ids_distinct n c g levels :
+  NoDup levels -> NoDup (map (fun l => seed_task_id n c g [l]) levels).
+Proof.
+  intros H. induction H as [|x l Hx Hl IH]; cbn [map]; constructor; [|exact IH].
+  intros Hin. apply in_map_iff in Hin. destruct Hin as (y & Hy & Hyl).
+  apply seed_task_id_injective in Hy. destruct Hy as (_ & _ & _ & Hy). injection Hy as ->. contradiction.
+Qed.
+
+Lemma store_get_add_same {K} (keqb : K -> K -> bool) s k v :
+  keqb k k = true -> store_get keqb (store_add s k v) k = v.
+Proof. intros H. unfold store_get, store_add. cbn [find fst snd]. rewrite H. reflexivity. Qed.
+
+Lemma store_get_add_other {K} (keqb : K -> K -> bool) s k k' v :
+  keqb k k' = false -> store_get keqb (store_add s k' v) k = store_get keqb s k.
+Proof. intros H. unfold store_get, store_add. cbn [find fst snd]. rewrite H. reflexivity. Qed.
+
+Lemma store_get_adds_other {K} (keqb : K -> K -> bool) ws : forall s k,
+    (forall w, In w ws -> keqb k (fst w) = false) ->
+    store_get keqb (store_adds s ws) k = store_get keqb s k.
+Proof.
+  induction ws as [|w ws IH]; intros s k H; [reflexivity|]. unfold store_adds in *. cbn [fold_left].
+  rewrite IH by (intros w' Hw'; apply H; right; exact Hw').
+  apply store_get_add_other. apply H. left. reflexivity.
+Qed.
+
+(* the progress entry of a task is not touched by whatever other tasks of the run (tasks that differ in name, cache,
+   grid or level list) write into the store, before, between or after its own runs: the identifier a continued run
+   of the task reads is the one its own last persisted report wrote, so resume_covers_history applies task by task *)
+Lemma progress_entries_independent_lemma n c g l others s :
+  (forall w, In w others -> exists n' c' g' l', fst w = seed_task_id n' c' g' l' /\ (n, c, g, l) <> (n', c', g', l')) ->
+  store_get id_eqb (store_adds s others) (seed_task_id n c g l) = store_get id_eqb s (seed_task_id n c g l).
+Proof.
+  intros H. apply store_get_adds_other. intros w Hw. destruct (H w Hw) as (n' & c' & g' & l' & -> & Hne).
+  apply not_true_is_false. intros E. apply id_eqb_eq in E. apply seed_task_id_injective in E.
+  destruct E as (-> & -> & -> & ->). congruence.
+Qed.
+
+Lemma id_eqb_refl a : id_eqb a a = true.
+Proof.
+  apply list_eqb_refl. intros [s|s|s]; cbn [idpart_eqb]; apply list_eqb_refl; intros x; apply Z.eqb_refl.
+Qed.
+
+Lemma progress_entry_own_write_lemma n c g l s v :
+  store_get id_eqb (store_add s (seed_task_id n c g l) v) (seed_task_id n c g l) = v.
+Proof. apply store_get_add_same. apply id_eqb_refl. Qed.
+
+Example ex_per_level_ids :
+  NoDup (map (fun l => seed_task_id [100] [99] [103] [l]) [1; 2; 3]) /\
+  store_get id_eqb (store_adds [] [(seed_task_id [100] [99] [103] [1], Some []); (seed_task_id [100] [99] [103] [2], Some [(0, 4)])])
+            (seed_task_id [100] [99] [103] [3]) = None.
+Proof.
+  split; [apply per_level_ids_distinct; repeat constructor; cbn; intuition discriminate|vm_compute; reflexivity].
+Qed.
